@@ -203,7 +203,7 @@ CHECKS = {
             'Trusts TLC, the independent ITP/PDB readers, and that lattice rotations are exact on the 0.001 A PDB grid. Two routes '
             '(files of subprocess runs; abstract system after every Processor.run_system of an in-process run, TLC names the first '
             'differing stage). Also runs spec/Martinize.tla: stage order and contracts for every option vector, replayed into the '
-            'real entry(). Known finding C11-nt-nh3. -go / -dssp pairs are not generated.',
+            'real entry(). Known finding C11-nt-nh3. -go pairs (self-computed contact map; no rigid motion) are generated, -dssp pairs are not.',
             'DESIGN.md section 5 / C11'),
 }
 
